@@ -3,7 +3,9 @@
 //! Sim: the language model is the simulator's (hook H6: `LLMProvider::Mock` answers from
 //! `samyama::verif::set_llm_script`).  Every event is one model response: a statement built
 //! from (read prefix, write/DDL/procedure clause or read tail, optional RETURN), rendered
-//! with a keyword-case variant and a clause separator, and wrapped (plain, fenced, fenced
+//! with a keyword-case variant and a clause separator (write clauses may be continued as clause
+//! pipelines `<write> WITH .. <read tail | write [WITH .. read tail]>`, procedure names are spelled
+//! in every namespace x mixed case), and wrapped (plain, fenced, fenced
 //! with explanations, several code blocks, leading comments, ...), or an API error.
 //! Real: `NLQPipeline::text_to_cypher` (direct) and the shipped axum router's
 //! `POST /api/nlq` (in part of the events), the parser, the planner, `QueryEngine::execute_mut`.
@@ -78,6 +80,135 @@ pub(crate) const WRITES: &[(&str, &str, bool)] = &[
     ("procedure", "CALL samyama.or.solve({label: 'P', property: 'z', algorithm: 'TLBO', max_iterations: 2, population_size: 4})", false),
 ];
 
+/// Spellings of a procedure name.  Dispatch strips one optional lower-case namespace and matches the
+/// rest case-insensitively, so every (namespace x case style) below except the last namespace reaches
+/// the same implementation; `Algo.` is not a namespace the engine knows (every layer must refuse it alike).
+pub(crate) const PROC_NAMESPACES: &[&str] = &["", "algo.", "samyama.", "gds.", "Algo."];
+pub(crate) const N_PROC_CASES: u64 = 6;
+
+/// `bare` (e.g. `or.solve`) in case style `style`: as written, Or.Solve, OR.SOLVE, or.Solve, oR.sOLVE, or.solvE.
+pub(crate) fn proc_case(bare: &str, style: u64) -> String {
+    let mut out = String::new();
+    let mut at_start = true;
+    let n = bare.len();
+    for (i, c) in bare.chars().enumerate() {
+        let up = match style % N_PROC_CASES {
+            0 => false,
+            1 => at_start,
+            2 => true,
+            3 => at_start && i > 0,
+            4 => !at_start,
+            _ => i + 1 == n,
+        };
+        out.push(if up { c.to_ascii_uppercase() } else { c });
+        at_start = c == '.';
+    }
+    out
+}
+
+/// Re-spell the procedure name of a `CALL <name>(..)` clause: PRNG-chosen namespace x case style.
+/// Returns (clause, "plain" | "mixed_case" | "unknown_namespace").
+pub(crate) fn respell_call(r: &mut Rng, clause: &str) -> (String, &'static str) {
+    let Some(rest) = clause.strip_prefix("CALL ") else { return (clause.to_string(), "plain") };
+    let Some(open) = rest.find('(') else { return (clause.to_string(), "plain") };
+    let name = &rest[..open];
+    let bare = ["algo.", "samyama.", "gds."].iter().find_map(|ns| name.strip_prefix(ns)).unwrap_or(name);
+    let ns = PROC_NAMESPACES[r.weighted(&[3, 4, 3, 2, 1])];
+    let style = r.weighted(&[3, 2, 2, 2, 1, 1]) as u64;
+    let spelled = proc_case(bare, style);
+    let kind = if ns == "Algo." {
+        "unknown_namespace"
+    } else if spelled != bare {
+        "mixed_case"
+    } else {
+        "plain"
+    };
+    (format!("CALL {ns}{spelled}{}", &rest[open..]), kind)
+}
+
+/// Clause pipelines (a write clause followed by WITH): the WITH that follows the write ...
+const WITHS_N: &[&str] = &["WITH n", "WITH n", "WITH n, 1 AS one", "WITH DISTINCT n", "WITH n WHERE n.k >= 0", "WITH n AS n, 1 AS one"];
+const WITHS_ANY: &[&str] = &["WITH 1 AS one", "WITH 1 AS one, 2 AS two"];
+/// ... and the read-only tails after it (`n` carried over / only `one` carried over).
+const PIPE_TAILS_N: &[&[&str]] = &[
+    &["RETURN n.k AS k"],
+    &["RETURN n"],
+    &["RETURN count(*) AS c"],
+    &["RETURN n.z AS z"],
+    &["RETURN n.k AS k ORDER BY k LIMIT 2"],
+    &["MATCH (n)-[:T]->(m)", "RETURN m.k AS k"],
+    &["OPTIONAL MATCH (n)-[:T]->(m)", "RETURN n.k AS a, m.k AS b"],
+    &["UNWIND [1, 2] AS x", "RETURN n.k AS k, x"],
+    &["MATCH (m:Q)", "RETURN count(*) AS c"],
+];
+const PIPE_TAILS_ANY: &[&[&str]] = &[&["RETURN one"], &["RETURN count(*) AS c"], &["MATCH (m:P)", "RETURN m.k AS k"]];
+const PIPE_RETURNS: &[&str] = &["", "RETURN count(*) AS c", "RETURN 1 AS one", "RETURN n", "RETURN n.k AS k"];
+
+/// A data-write clause (no DDL, no procedure) usable where `n` is bound or not.
+pub(crate) fn pick_data_write(r: &mut Rng, binds_n: bool) -> usize {
+    let mut wi = r.usize_below(WRITES.len());
+    for _ in 0..8 {
+        let c = WRITES[wi].0;
+        if c != "ddl" && c != "procedure" && (!WRITES[wi].2 || binds_n) {
+            return wi;
+        }
+        wi = r.usize_below(WRITES.len());
+    }
+    9 // CREATE (:Q {k: 7})
+}
+
+/// Continue a statement whose last clause is a write (class `w1`) as a clause pipeline:
+/// `WITH ..` + a read tail (every write sits before the last WITH), or + a second write
+/// [+ RETURN] (writes on both sides), or + a second write + `WITH ..` + a read tail.
+/// Returns the write class of the whole statement: `<w1>_with_read`, `<w1>_with_<w2>`,
+/// `<w1>_with_<w2>_with_read`.
+pub(crate) fn push_pipeline_tail(r: &mut Rng, clauses: &mut Vec<String>, w1: &str, binds_n: bool) -> String {
+    fn push_with(r: &mut Rng, clauses: &mut Vec<String>, carry_n: bool) {
+        let w = if carry_n { WITHS_N[r.usize_below(WITHS_N.len())] } else { WITHS_ANY[r.usize_below(WITHS_ANY.len())] };
+        clauses.push(w.to_string());
+    }
+    fn push_read_tail(r: &mut Rng, clauses: &mut Vec<String>, carry_n: bool) {
+        let t = if carry_n { PIPE_TAILS_N[r.usize_below(PIPE_TAILS_N.len())] } else { PIPE_TAILS_ANY[r.usize_below(PIPE_TAILS_ANY.len())] };
+        clauses.extend(t.iter().map(|c| c.to_string()));
+    }
+    // sometimes the projection drops `n` although it is bound
+    let carry_n = binds_n && !r.chance(1, 6);
+    push_with(r, clauses, carry_n);
+    match r.weighted(&[5, 3, 2]) {
+        0 => {
+            push_read_tail(r, clauses, carry_n);
+            format!("{w1}_with_read")
+        }
+        k => {
+            let wi = pick_data_write(r, carry_n);
+            clauses.push(WRITES[wi].1.to_string());
+            if k == 1 {
+                let mut ret = PIPE_RETURNS[r.usize_below(PIPE_RETURNS.len())];
+                if !carry_n && (ret == "RETURN n" || ret.starts_with("RETURN n.k")) {
+                    ret = "RETURN 1 AS one";
+                }
+                if !ret.is_empty() {
+                    clauses.push(ret.to_string());
+                }
+                format!("{w1}_with_{}", WRITES[wi].0)
+            } else {
+                push_with(r, clauses, carry_n);
+                push_read_tail(r, clauses, carry_n);
+                format!("{w1}_with_{}_with_read", WRITES[wi].0)
+            }
+        }
+    }
+}
+
+/// Leading writes that bind `n` (so a pipeline can carry it on): (class, clauses).
+const LEADING_WRITES_N: &[(&str, &[&str])] = &[
+    ("create", &["CREATE (n:Q {k: 9})"]),
+    ("merge", &["MERGE (n:Q {k: 9})"]),
+    ("create", &["UNWIND [1, 2] AS x", "CREATE (n:Q {k: x})"]),
+    ("merge", &["UNWIND [1, 2] AS x", "MERGE (n:Q {k: x})"]),
+    ("delete", &["MATCH (n:P)", "WITH n", "DETACH DELETE n"]),
+];
+
 pub(crate) const READ_TAILS: &[&str] = &["RETURN n", "RETURN count(*) AS c", "RETURN n.k AS k ORDER BY k LIMIT 2", "RETURN 1 AS one"];
 const RETURNS: &[&str] = &["", "RETURN count(*) AS c", "RETURN 1 AS one", "RETURN n"];
 pub(crate) const SEPS: &[&str] = &[" ", "\n", "\t", "  ", " /* c */ ", "\n// c\n", "\r\n"];
@@ -102,7 +233,9 @@ pub(crate) fn recase(s: &str, mode: u64) -> String {
             while j < b.len() && b[j].is_ascii_uppercase() {
                 j += 1;
             }
-            let prev_ok = i == 0 || !(b[i - 1].is_ascii_alphanumeric() || b[i - 1] == ':' || b[i - 1] == '_');
+            let prev_ok = i == 0 || !(b[i - 1].is_ascii_alphanumeric() || b[i - 1] == ':' || b[i - 1] == '_' || b[i - 1] == '.');
+            // (a run followed by a dot is the head of a dotted name, e.g. `OR.SOLVE`: not a keyword either)
+            let prev_ok = prev_ok && !(j < b.len() && b[j] == '.');
             if j - i >= 2 && prev_ok {
                 for (k, c) in b[i..j].iter().enumerate() {
                     match mode {
@@ -154,7 +287,20 @@ fn gen_response(r: &mut Rng) -> Value {
     let (pclass, pclauses, binds_n) = PREFIXES[pi];
     let mutating = r.chance(5, 6);
     let mut clauses: Vec<String> = pclauses.iter().map(|s| s.to_string()).collect();
-    let mut wclass = "none";
+    let mut wclass = "none".to_string();
+    let mut spelling = "";
+    if mutating && r.chance(1, 8) {
+        // a statement led by a write that binds `n` (UNWIND..CREATE, MATCH..WITH n DETACH DELETE n, ..),
+        // always continued as a clause pipeline
+        let (w1, lead) = LEADING_WRITES_N[r.usize_below(LEADING_WRITES_N.len())];
+        clauses = lead.iter().map(|s| s.to_string()).collect();
+        wclass = push_pipeline_tail(r, &mut clauses, w1, true);
+        let sep = SEPS[r.weighted(&[8, 5, 1, 1, 1, 1, 1])];
+        let case_mode = r.weighted(&[5, 3, 1, 1]) as u64;
+        let stmt = recase(&clauses.join(sep), case_mode);
+        let lead_class = if lead[0].starts_with("UNWIND") { "unwind" } else if lead[0].starts_with("MATCH") { "match_with" } else { "none" };
+        return json!({"op":"resp","stmt":stmt,"wrap":r.below(N_WRAPS),"via":r.below(8),"prefix":lead_class,"write":wclass});
+    }
     if mutating {
         // prefer a clause whose variable is bound, but keep some unbound combinations
         let mut wi = r.usize_below(WRITES.len());
@@ -164,14 +310,30 @@ fn gen_response(r: &mut Rng) -> Value {
             }
             wi = r.usize_below(WRITES.len());
         }
-        wclass = WRITES[wi].0;
-        clauses.push(WRITES[wi].1.to_string());
-        let mut ret = RETURNS[r.usize_below(RETURNS.len())];
-        if ret == "RETURN n" && !binds_n {
-            ret = "RETURN 1 AS one";
+        let w1 = WRITES[wi].0;
+        wclass = w1.to_string();
+        if w1 == "procedure" {
+            // every namespace spelling x case style of the procedure name
+            let (c, kind) = respell_call(r, WRITES[wi].1);
+            spelling = kind;
+            if kind != "plain" {
+                wclass = format!("procedure_{kind}");
+            }
+            clauses.push(c);
+        } else {
+            clauses.push(WRITES[wi].1.to_string());
         }
-        if !ret.is_empty() {
-            clauses.push(ret.to_string());
+        if w1 != "ddl" && w1 != "procedure" && (!WRITES[wi].2 || binds_n) && r.chance(2, 5) {
+            // clause pipeline: every write followed by a WITH and a read tail / writes on both sides of a WITH
+            wclass = push_pipeline_tail(r, &mut clauses, w1, binds_n);
+        } else {
+            let mut ret = RETURNS[r.usize_below(RETURNS.len())];
+            if ret == "RETURN n" && !binds_n {
+                ret = "RETURN 1 AS one";
+            }
+            if !ret.is_empty() {
+                clauses.push(ret.to_string());
+            }
         }
     } else {
         let mut t = READ_TAILS[r.usize_below(READ_TAILS.len())];
@@ -187,7 +349,11 @@ fn gen_response(r: &mut Rng) -> Value {
     let sep = SEPS[r.weighted(&[8, 5, 1, 1, 1, 1, 1])];
     let case_mode = r.weighted(&[5, 3, 1, 1]) as u64;
     let stmt = recase(&clauses.join(sep), case_mode);
-    json!({"op":"resp","stmt":stmt,"wrap":r.below(N_WRAPS),"via":r.below(8),"prefix":pclass,"write":wclass})
+    let mut ev = json!({"op":"resp","stmt":stmt,"wrap":r.below(N_WRAPS),"via":r.below(8),"prefix":pclass,"write":wclass});
+    if !spelling.is_empty() {
+        ev["spelling"] = json!(spelling);
+    }
+    ev
 }
 
 const SETUP: &[&str] = &[
@@ -284,7 +450,7 @@ impl Scenario for C24 {
         }
     }
     fn rule(&self) -> &'static str {
-        "a run = 1-8 simulated model responses; each is (one of 15 read prefixes incl. none) + (one of 27 write / DDL / write-procedure clauses, or a read tail in 1/6 of the responses) + optional RETURN, joined by one of 7 separators (space, newline, tab, block comment, line comment, CRLF), keywords in one of 4 case styles, wrapped in one of 16 response shapes (plain, fenced with/without language tag, explanations before/after, two code blocks in both orders, leading line/block comment, trailing semicolon, leading blank lines, unterminated fence, chatty prefix), or an API error (1/25); 7/8 of the responses go through NLQPipeline::text_to_cypher, 1/8 through POST /api/nlq of the shipped router. Non-trivial = the run contains a response whose statement has a mutating clause after a non-empty read prefix. Distinct = hash of the (statement, wrapper, route) list."
+        "a run = 1-8 simulated model responses; each is (one of 15 read prefixes incl. none) + (one of 27 write / DDL / write-procedure clauses, or a read tail in 1/6 of the responses) + optional RETURN; in 2/5 of the data-write statements the write clause is continued as a clause pipeline: WITH (6 forms, carrying n or dropping it) + a read tail (RETURN forms, MATCH / OPTIONAL MATCH / UNWIND .. RETURN: every write precedes the last WITH), or + a second write clause [+ RETURN] (writes on both sides of the WITH), or + a second write + WITH + read tail; 1/8 of the mutating responses are pipelines led by a write that binds n (CREATE, MERGE, UNWIND..CREATE/MERGE, MATCH..WITH n DETACH DELETE n); the procedure name of a write-procedure call is spelled with one of 5 namespaces (none, algo., samyama., gds., and the unknown Algo.) x 6 case styles (or.solve, Or.Solve, OR.SOLVE, or.Solve, oR.sOLVE, or.solvE); clauses joined by one of 7 separators (space, newline, tab, block comment, line comment, CRLF), keywords in one of 4 case styles, wrapped in one of 16 response shapes (plain, fenced with/without language tag, explanations before/after, two code blocks in both orders, leading line/block comment, trailing semicolon, leading blank lines, unterminated fence, chatty prefix), or an API error (1/25); 7/8 of the responses go through NLQPipeline::text_to_cypher, 1/8 through POST /api/nlq of the shipped router. Non-trivial = the run contains a response whose statement has a mutating clause after a non-empty read prefix. Distinct = hash of the (statement, wrapper, route) list."
     }
     fn real_components(&self) -> Vec<&'static str> {
         vec![
@@ -306,7 +472,16 @@ impl Scenario for C24 {
         ]
     }
     fn required_probes(&self, _tier: Tier) -> Vec<&'static str> {
-        vec!["accepted", "rejected", "accepted_read_executed", "api_error_propagated", "via_http"]
+        vec![
+            "accepted",
+            "rejected",
+            "accepted_read_executed",
+            "api_error_propagated",
+            "via_http",
+            "pipeline_write_before_last_with_rejected",
+            "pipeline_writes_both_sides_rejected",
+            "procedure_mixed_case_rejected",
+        ]
     }
     fn generate(&self, s: &mut Streams, _run_index: u64, _tier: Tier) -> Case {
         let mut case = Case::new("C24");
@@ -384,6 +559,14 @@ impl Scenario for C24 {
                     o.probe("rejected");
                     if wclass == "none" && u(ev, "wrap") % N_WRAPS <= 3 {
                         o.probe("read_rejected");
+                    }
+                    if wclass.ends_with("_with_read") {
+                        o.probe("pipeline_write_before_last_with_rejected");
+                    } else if wclass.contains("_with_") {
+                        o.probe("pipeline_writes_both_sides_rejected");
+                    }
+                    if s(ev, "spelling") == "mixed_case" {
+                        o.probe("procedure_mixed_case_rejected");
                     }
                     hash_parts.push("R".into());
                     continue;
